@@ -35,6 +35,8 @@ class DerivedFn:
             ty = b.local_ty(l)
             if ty.startswith("(bool, core::option::Option<") and not n.startswith("__"):
                 self.slots[l] = n
+        self.sym.opaque = set(self.slots)
+        self.sym._cache = {}
         self.calls = []
         for blk, t in b.calls():
             c = mir.callee_of(t)
